@@ -113,20 +113,35 @@ def walk_own(fnode):
         stack.extend(ast.iter_child_nodes(n))
 
 
+_BODY_FIELDS = ("body", "orelse", "finalbody", "handlers", "cases")
+
+
 def walk_stmt_exprs(node):
-    """Walk expression parts of one statement: do not descend into nested
-    statements' bodies (used per CFG node) nor nested function bodies."""
+    """Walk the expressions evaluated by one statement itself: nested
+    statement bodies, nested function bodies and lambdas are not entered."""
     stack = [node]
     first = True
     while stack:
         n = stack.pop()
         if not first and isinstance(n, (ast.FunctionDef, ast.AsyncFunctionDef, ast.ClassDef)):
             continue
-        first = False
         yield n
         if isinstance(n, ast.Lambda):
+            first = False
             continue
-        stack.extend(ast.iter_child_nodes(n))
+        if isinstance(n, ast.stmt) and not isinstance(n, (ast.FunctionDef, ast.AsyncFunctionDef, ast.ClassDef)):
+            for fld, val in ast.iter_fields(n):
+                if fld in _BODY_FIELDS:
+                    continue
+                if isinstance(val, ast.AST):
+                    stack.append(val)
+                elif isinstance(val, list):
+                    stack.extend(v for v in val if isinstance(v, ast.AST))
+        elif first and isinstance(n, (ast.FunctionDef, ast.AsyncFunctionDef, ast.ClassDef)):
+            stack.extend(n.decorator_list)
+        else:
+            stack.extend(ast.iter_child_nodes(n))
+        first = False
 
 
 class Class:
